@@ -4,6 +4,7 @@ Translator leg for C06: the model has ONE world-proof function for Vanilla/TBC (
 from the three modules on every run: a swap of the two seeds (or another argument) in one module alone changes one list.
 -/
 import WowSrp.Gen.Constants
+import WowSrp.Gen.Facts
 namespace WowSrp
 
 def expected_worldProofCalls : List (List String) := [["into_client_header_crypto: client_proof=(username,&SessionKey::from_le_bytes(session_key),server_seed,self.seed,)", "into_server_header_crypto: server_proof=(username,&SessionKey::from_le_bytes(session_key),self.seed,client_seed,)"]]
